@@ -2,6 +2,7 @@
 import base64
 import json
 import os
+import shutil
 import subprocess
 
 from ..core import Result, cli, scrub_env
@@ -135,15 +136,26 @@ def check_case(ctx, case):
     try:
         setup(d)
         pathdir = os.path.join(d, 'pathdir')
+        links = os.path.join(d, 'links')
+        os.makedirs(links, exist_ok=True)
+        wrong = os.path.join(d, 'tmp', 'wrong-program-ran')
+        how = 'abs'
         if via == 'bklb':
+            # the wrapped program is the one PATH names (pathdir/spy); the symlink spyb lives elsewhere, next to a decoy of the same
+            # name as the wrapped program, and is invoked by absolute path, by relative path, or found through PATH itself
             os.symlink(ctx.build.spy, os.path.join(pathdir, 'spy'))
-            prog = os.path.join(pathdir, 'spyb')
-            os.symlink(ctx.bin('bklb'), prog)
+            os.symlink(ctx.bin('bklb'), os.path.join(links, 'spyb'))
+            with open(os.path.join(links, 'spy'), 'w') as f:
+                f.write('#!/bin/sh\n: > "%s"\nexit 0\n' % wrong)
+            os.chmod(os.path.join(links, 'spy'), 0o755)
+            how = ['abs', 'rel', 'path'][case.get('i', 0) % 3]
+            prog = {'abs': os.path.join(links, 'spyb'), 'rel': 'links/spyb', 'path': 'spyb'}[how]
+            res.labels.add('invoked:' + how)
         else:
             os.symlink(ctx.build.spy, os.path.join(pathdir, 'kubectl'))
             prog = ctx.bin('kubectl-bkl')
         rec = os.path.join(d, 'tmp', 'spy-record.json')
-        env = scrub_env({'SPY_OUT': rec, 'SPY_EXIT': str(case['exit']), 'TMPDIR': os.path.join(d, 'tmp')}, path_prefix=pathdir)
+        env = scrub_env({'SPY_OUT': rec, 'SPY_EXIT': str(case['exit']), 'TMPDIR': os.path.join(d, 'tmp')}, path_prefix=pathdir + ':' + links)
         # expectation per argument, from the real bkl binary
         expect = []
         any_fail = False
@@ -162,10 +174,13 @@ def check_case(ctx, case):
                 expect.append(('same', a))
         res.nontrivial = nres > 0
         res.labels.add('resolvable:%d' % min(nres, 4))
-        p = subprocess.run([prog] + argv, cwd=d, env=env, stdout=subprocess.PIPE, stderr=subprocess.PIPE, timeout=120)
+        exe = shutil.which(prog, path=env['PATH']) if how == 'path' else prog
+        p = subprocess.run([prog] + argv, executable=os.path.join(d, exe) if how == 'rel' else exe, cwd=d, env=env, stdout=subprocess.PIPE, stderr=subprocess.PIPE, timeout=120)
         res.execs += 1
         ran = os.path.exists(rec)
-        detail = {'argv': argv, 'via': via, 'stderr': p.stderr.decode('utf-8', 'replace')[-300:]}
+        detail = {'argv': argv, 'via': via, 'invoked': how, 'stderr': p.stderr.decode('utf-8', 'replace')[-300:]}
+        if os.path.exists(wrong):
+            return res.violate('passthrough', 'a program next to the symlink ran instead of the one PATH names', **detail)
         if p.returncode < 0 or b'panic:' in p.stderr:
             return res.violate('crash', 'wrapper died rc=%s' % p.returncode, **detail)
         if any_fail:
